@@ -258,6 +258,13 @@ def run_layout(acc, shapes, seed):
     p = len(shapes)
     sdesc = f"shapes={shapes}"
     keys = [torch.tensor(_values(s, 7 + i, seed), dtype=torch.float64) for i, s in enumerate(shapes)]
+    # about half of the keys with >= 2 dimensions are dense but NOT contiguous (reversed strides, same values): a slice must be reshaped
+    # to the key's SHAPE, whatever the key's memory layout is
+    tot = sum(len(s) for s in shapes)
+    for i, k in enumerate(keys):
+        if k.dim() >= 2 and (i + tot) % 2 == 0:
+            perm = list(range(k.dim()))[::-1]
+            keys[i] = k.permute(perm).contiguous().permute(perm)
     nt = 1 if p >= 2 else 0
 
     # ---- Init
@@ -356,7 +363,7 @@ def run_layout(acc, shapes, seed):
                     sc = max(1.0, float(np.abs(united).max()) * 6.0)
                     err = float(np.abs(xs - ref).max())
                     acc.m("aggregate-constant-value", err / (TOL64 * sc))
-                    if err > TOL64 * sc:
+                    if not (err <= TOL64 * sc):  # NaN-safe
                         acc.v("aggregate:constant-value", f"{what}: got {xs.tolist()} expected {ref.tolist()}")
                 acc.nontrivial += nt
         acc.outcomes.add(digest(["aggregate", shapes, order]))
@@ -482,7 +489,7 @@ def run_diff(acc, prog, outs, seed):
                         for l in listing:
                             e = float(np.abs(_np(res[vals[l]])[k] - grad_rows[j][l]).max()) if grad_rows[j][l].size else 0.0
                             acc.m("jac-rows-vs-grad", e / (TOL64 * scale))
-                            if e > TOL64 * scale:
+                            if not (e <= TOL64 * scale):  # NaN-safe
                                 acc.v("jac-row-differs-from-grad", f"{what}: row {k} for leaf {l} differs from Grad of cotangent #{j} by {e:.3g}")
             if m >= 2 or multi:
                 acc.nontrivial += 1
